@@ -305,3 +305,28 @@ package execution
 //@   stream 1 step IN retraction: lastIn().Retraction ==> stepErr != nil
 //@   ensures errprop: runErr != nil ==> result1 != nil
 //@   ensures list: result1 == nil ==> result0.TypeID == 7 && len(result0.List) == len(IN)
+
+// C07/C13: re-laying a value out for COALESCE. For a mapping that fits the value's shape (wfmap: struct source indexes
+// in range with one sub-mapping each, one element mapping per tuple element, recursively) fixLayout never panics,
+// keeps the value's kind, the length of lists and tuples, and returns primitive values unchanged.
+//@ spec rec wfmap(m LayoutMapping, v Value) bool = (v.TypeID == 8 ==> m.Struct != nil && len(m.Struct.SourceMapping) == len(m.Struct.SourceIndex) && forall(j, 0, len(m.Struct.SourceIndex), m.Struct.SourceIndex[j] == 0 - 1 || (0 <= m.Struct.SourceIndex[j] && m.Struct.SourceIndex[j] < len(v.Struct) && wfmap(m.Struct.SourceMapping[j], v.Struct[m.Struct.SourceIndex[j]])))) && (v.TypeID == 7 ==> m.List != nil && forall(j, 0, len(v.List), wfmap(m.List.ElementMapping, v.List[j]))) && (v.TypeID == 9 ==> m.Tuple != nil && len(v.Tuple) <= len(m.Tuple.ElementMapping) && forall(j, 0, len(v.Tuple), wfmap(m.Tuple.ElementMapping[j], v.Tuple[j])))
+//@ func (*ObjectLayoutFixer).fixLayout
+//@   requires wf: wfmap(mapping, value)
+//@   loop 1 invariant wf: value.TypeID == 8 && len(out) == len(mapping.Struct.SourceIndex) && out.base != value.Struct.base && mapping.Struct != nil && len(mapping.Struct.SourceMapping) == len(mapping.Struct.SourceIndex) && forall(j, 0, len(mapping.Struct.SourceIndex), mapping.Struct.SourceIndex[j] == 0 - 1 || (0 <= mapping.Struct.SourceIndex[j] && mapping.Struct.SourceIndex[j] < len(value.Struct) && wfmap(mapping.Struct.SourceMapping[j], value.Struct[mapping.Struct.SourceIndex[j]])))
+//@   loop 2 invariant wf: value.TypeID == 7 && len(out) == len(value.List) && out.base != value.List.base && mapping.List != nil && forall(j, 0, len(value.List), wfmap(mapping.List.ElementMapping, value.List[j]))
+//@   loop 3 invariant wf: value.TypeID == 9 && len(out) == len(value.Tuple) && out.base != value.Tuple.base && mapping.Tuple != nil && len(value.Tuple) <= len(mapping.Tuple.ElementMapping) && forall(j, 0, len(value.Tuple), wfmap(mapping.Tuple.ElementMapping[j], value.Tuple[j]))
+//@   ensures kind: result.TypeID == value.TypeID
+//@   ensures tuple: value.TypeID == 9 ==> len(result.Tuple) == len(value.Tuple)
+//@   ensures list: value.TypeID == 7 ==> len(result.List) == len(value.List)
+//@   ensures scalar: value.TypeID != 7 && value.TypeID != 8 && value.TypeID != 9 ==> same(result, value)
+
+// C13/C11/C06: COALESCE yields its first non-NULL argument (re-laid out, so of the same kind: never NULL), NULL when
+// every argument is NULL, and the error of the first failing argument that is reached (the arguments after the first
+// non-NULL one are not evaluated). The layout mappings fit the arguments' values (established from the argument types
+// by NewObjectLayoutFixer: caller obligation).
+//@ func (*Coalesce).Evaluate
+//@   requires fit: c.objectLayoutFixer != nil && len(c.objectLayoutFixer.mappings) == len(c.args) && forall(j, 0, len(c.args), wfmap(c.objectLayoutFixer.mappings[j], evalVal(c.args[j], ctx)))
+//@   loop 1 invariant allnull: 0 <= $k && $k <= len(c.args) && forall(j, 0, $k, evalErr(c.args[j], ctx) == nil && evalVal(c.args[j], ctx).TypeID == 0)
+//@   ensures errprop: (exists(j, 0, len(c.args), evalErr(c.args[j], ctx) != nil && forall(i, 0, j, evalErr(c.args[i], ctx) == nil && evalVal(c.args[i], ctx).TypeID == 0))) ==> result1 != nil
+//@   ensures allnull: result1 == nil && (forall(j, 0, len(c.args), evalErr(c.args[j], ctx) == nil && evalVal(c.args[j], ctx).TypeID == 0)) ==> result0.TypeID == 0
+//@   ensures first: result1 == nil && (exists(j, 0, len(c.args), evalVal(c.args[j], ctx).TypeID != 0 && evalErr(c.args[j], ctx) == nil && forall(i, 0, j, evalErr(c.args[i], ctx) == nil && evalVal(c.args[i], ctx).TypeID == 0))) ==> result0.TypeID != 0
